@@ -191,6 +191,9 @@ pub struct World {
     pub partial_pub_out: bool,
     /// topic of the partly delivered inbound PUBLISH (`Inbound(4)`)
     pub partial_topic: String,
+    /// v5: the peer refuses every second QoS 2 publish with a negative PUBREC (0x87); by the specification the
+    /// exchange is over then (the library still lets the application release the receipt and completes with PUBCOMP)
+    pub neg_pubrec: bool,
 }
 
 /// topic of an incomplete PUBLISH frame at the end of the stream, once its header is complete
@@ -349,6 +352,7 @@ impl World {
             inbound_qos2: 0,
             partial_pub_out: false,
             partial_topic: "in/p".into(),
+            neg_pubrec: false,
         })
     }
 
@@ -388,7 +392,8 @@ impl World {
         Ok(())
     }
 
-    /// QoS>0 PUBLISH frames on the wire whose final acknowledgement the peer has not sent yet
+    /// QoS>0 PUBLISH frames on the wire whose final acknowledgement (PUBACK; PUBCOMP for QoS 2, also after a negative
+    /// PUBREC: the library completes such an exchange with PUBREL / PUBCOMP like any other) the peer has not sent yet
     pub fn outstanding_pubs(&self) -> usize {
         usize::from(self.partial_pub_out) + self
             .requests
@@ -397,7 +402,7 @@ impl World {
             .filter(|r| {
                 !self.acks.iter().any(|a| {
                     a.dev.is_none()
-                        && a.for_req.as_ref().is_some_and(|q| q.t == 3 && q.pos == r.pos && ((r.qos == 1 && a.t == 4) || (r.qos == 2 && a.t == 5 && a.reason >= 0x80)))
+                        && a.for_req.as_ref().is_some_and(|q| q.t == 3 && q.pos == r.pos && r.qos == 1 && a.t == 4)
                         || (a.dev.is_none() && r.qos == 2 && a.t == 7 && a.for_req.as_ref().is_some_and(|q| q.t == 6 && q.id == r.id && q.pos > r.pos))
                 })
             })
@@ -464,6 +469,14 @@ impl World {
         Some(i)
     }
 
+    /// create + poll once, regardless of the cap on the number of slots (end-of-case probes)
+    pub fn force_send(&mut self, kind: SendKind) {
+        self.step += 1;
+        if let Some(i) = self.create(kind, false, 0) {
+            self.poll_slot(i);
+        }
+    }
+
     /// "send again immediately on completion" loops
     fn resend_loops(&mut self) {
         let mut guard = 0;
@@ -491,6 +504,9 @@ impl World {
         let v5 = self.eut.role().is_v5();
         let mut ack = s5::Ack5 { pid: r.id, ..Default::default() };
         let mut codes: Vec<u8> = vec![1];
+        if self.neg_pubrec && v5 && r.t == 3 && r.qos == 2 && r.id % 2 == 1 {
+            ack.reason = 0x87;
+        }
         if self.flavor && v5 {
             let k = usize::from(r.id) + r.pos;
             if r.t == 3 && r.qos == 1 {
